@@ -8,6 +8,7 @@ import (
 	"os"
 	"path/filepath"
 	"strings"
+	"sync"
 
 	"golang.org/x/tools/go/packages"
 	"golang.org/x/tools/go/ssa"
@@ -22,6 +23,7 @@ type Program struct {
 	SSA      *ssa.Program
 	ByPath   map[string]*packages.Package
 	RepoDir  string
+	mu       sync.Mutex
 	srcCache map[string][]string
 	fnIndex  map[string]*ssa.Function
 }
@@ -85,6 +87,8 @@ func verifDir() string {
 
 // FindFunc resolves "pkgpath.Func" or "pkgpath.(*T).Method" / "pkgpath.T.Method" (pkgpath relative to module allowed).
 func (p *Program) FindFunc(name string) *ssa.Function {
+	p.mu.Lock()
+	defer p.mu.Unlock()
 	if f, ok := p.fnIndex[name]; ok {
 		return f
 	}
@@ -157,6 +161,8 @@ func (p *Program) SrcLine(pos token.Pos) string {
 		return ""
 	}
 	position := p.Fset.Position(pos)
+	p.mu.Lock()
+	defer p.mu.Unlock()
 	lines, ok := p.srcCache[position.Filename]
 	if !ok {
 		b, err := os.ReadFile(position.Filename)
